@@ -14,7 +14,7 @@ EXPLANATION = ('Decides presence and exact predicate of every static check of th
 NOT_DECIDED = ['completeness of the checks with respect to an independent checker written from the book', 'grammar acceptance beyond the keyword rules of C17']
 ASSUMPTIONS = ['the reviewed table was frozen from a tree whose checks were read against the book (tables/guards.md)']
 
-EXCLUDE = re.compile(r'^(witness::WitnessValues::is_consistent|debug::.*|<.* as std::fmt::Display>::fmt.*|types::TypeInner::<A>::display|error::Span::to_slice|<.* as parse::ParseFromStr>::parse_from_str.*|witness::<impl parse::ParseFromStr for types::ResolvedType>::parse_from_str|value::Value::parse_from_str|TemplateProgram::(new|instantiate)|CompiledProgram::new)$')
+EXCLUDE = re.compile(r'^(<value::StructuralValue as .*|<value::Destructor.*|value::destruct::.*|array::(Partition|Combiner|Unfolder).*|<array::Partition.*|<&?value::(Structural)?Value as miniscript::iter::TreeLike>::as_node|<value::StructuralValue as miniscript.*|witness::WitnessValues::is_consistent|debug::.*|<.* as std::fmt::Display>::fmt.*|types::TypeInner::<A>::display|error::Span::to_slice|<.* as parse::ParseFromStr>::parse_from_str.*|witness::<impl parse::ParseFromStr for types::ResolvedType>::parse_from_str|value::Value::parse_from_str|TemplateProgram::(new|instantiate)|CompiledProgram::new)$')
 
 
 def table_rule(ctx, rid, select, what, fields=guards.ALL_FIELDS):
@@ -91,6 +91,17 @@ def r_grammar_words(ctx, rid, order=True):
                'src/minimal.pest (%s)' % rule, 'not excluded: %s — `%s …` is taken by %s whenever its continuation matches (e.g. a parenthesised operand)' % (ws, (ws or ['?'])[0], prev) if ws else None)
     if order:
         ctx.floor(rid, 'identifier-before-keyword alternative pairs', len(pos), 4)
+    # constructor words (`Left`, `Some`, ..) in front of an identifier alternative that continues with the same token
+    fpos, ffnd = g.fused_capture()
+    badf = {}
+    for rule, lit, alt, role, w in ffnd:
+        badf.setdefault((rule, lit, alt), []).append(w)
+    for rule, lit, alt, role in (fpos if order else []):
+        ws = badf.get((rule, lit, alt))
+        ctx.ob(rid, 'word-first:%s:%s<%s' % (rule, lit, alt), not ws, 'in rule %s the alternative beginning with `%s` is tried before %s (identifier role %s) and both continue with the same token: the word is excluded from the role' % (rule, lit, alt, role),
+               'src/minimal.pest (%s)' % rule, 'not excluded: %s — a %s of that name can be defined but `%s(..)` never reaches it' % (ws, role, (ws or ['?'])[0]) if ws else None)
+    if order:
+        ctx.floor(rid, 'word-before-identifier alternative pairs', len(fpos), 3)
     ST = [{'name': 'id', 'ty': 'atomic', 'e': {'k': 'seq', 'a': {'k': 'ident', 'v': 'ASCII_ALPHA'}, 'b': {'k': 'rep', 'e': {'k': 'choice', 'a': {'k': 'ident', 'v': 'ASCII_ALPHANUMERIC'}, 'b': {'k': 'str', 'v': '_'}}}}},
           {'name': 'call', 'ty': 'normal', 'e': {'k': 'seq', 'a': {'k': 'ident', 'v': 'id'}, 'b': {'k': 'str', 'v': '('}}},
           {'name': 'm', 'ty': 'normal', 'e': {'k': 'seq', 'a': {'k': 'str', 'v': 'match'}, 'b': {'k': 'ident', 'v': 'e'}}},
@@ -99,7 +110,8 @@ def r_grammar_words(ctx, rid, order=True):
     ctx.ob(rid, 'selftest', bool(Grammar([{'name': 'k', 'ty': 'atomic', 'e': {'k': 'seq', 'a': {'k': 'choice', 'a': {'k': 'str', 'v': 'Ge'}, 'b': {'k': 'str', 'v': 'Gej'}}, 'b': {'k': 'neg', 'e': {'k': 'ident', 'v': 'ASCII_ALPHANUMERIC'}}}}]).prefix_shadowing()[1]), 'the rule reports `("Ge" | "Gej") ~ !ALNUM`')
 
 
-HELP = re.compile(r'^(types::UIntType::(from_bit_width|bit_width|byte_width)|num::(NonZero)?Pow2Usize::new|value::UIntValue::(u1|u2|u4)|ast::Scope::(get_variable|get_function|is_topmost|resolve)(::\\{closure#\\d+\\})?|types::AliasedType::(resolve|resolve_builtin)(::\\{closure#\\d+\\})?|types::BuiltinAlias::resolve|value::Value::is_of_type)$')
+PARSERS = r'^<.* as parse::PestParse>::parse(::\{closure#\d+\})*$'
+HELP = re.compile(r'^(types::UIntType::(from_bit_width|bit_width|byte_width)|num::(NonZero)?Pow2Usize::new|value::UIntValue::(u1|u2|u4)|ast::Scope::\w+(::\{closure#\d+\})?|types::AliasedType::(resolve|resolve_builtin)(::\{closure#\d+\})?|types::BuiltinAlias::resolve|value::Value::is_of_type)$')
 
 
 def check(ctx):
@@ -107,6 +119,7 @@ def check(ctx):
     table_rule(ctx, 'R04.1h', lambda p: bool(HELP.match(p)), 'predicate helpers of the front end (returned values compared as well)')
     r_grammar_words(ctx, 'R04.4')
     r_reviewed_grammar(ctx, 'R04.6')
+    group_rule(ctx, 'R04.7', PARSERS, 'parse-tree construction (every PestParse::parse): which child becomes which field, in which order', 30)
     ctx.floor('R04.1', 'front-end functions with a decision table', f, 55)
     ctx.floor('R04.1', 'decision rows', n, 300)
     from . import c03
@@ -147,6 +160,7 @@ def r_zip(ctx, rid):
             for e in event_calls(p, 'zip'):
                 a, b = _coll(e[2][0]), _coll(e[2][1])
                 sa_, sb_ = S(a), S(b)
+                na_, nb_ = guards.unq(guards.N(a)), guards.unq(guards.N(b))   # as rendered inside decision conditions
                 key = 'zip:%s:%s~%s' % (path, sa_[:60], sb_[:60])
                 ok = False
                 why = ''
@@ -155,7 +169,8 @@ def r_zip(ctx, rid):
                 else:
                     for w, l in p.conds[:e[5]]:
                         c, truth = guards.canon_cond(w, l)
-                        if truth == 'T' and c.startswith('Eq(') and ('len(%s)' % sa_ in c) and ('len(%s)' % sb_ in c or sb_ in c):
+                        c = guards.unq(c)
+                        if truth == 'T' and c.startswith('Eq(') and ('len(%s)' % na_ in c) and ('len(%s)' % nb_ in c or nb_ in c):
                             ok, why = True, 'guarded by ' + c
                     if not ok and a[0] == 'param' and b[0] == 'param':
                         # every caller must have passed `check(len == len)?` on the same two arguments
@@ -180,7 +195,7 @@ def r_zip(ctx, rid):
                         if okc:
                             ok, why = True, 'every caller checks the two lengths with check_argument_types(same arguments)? first'
                             lt = ctx.facts().fn('<ast::Call as ast::AbstractSyntaxTree>::analyze::check_argument_types')
-                            rows = guards.decision_table(ctx, lt)
+                            rows = guards.decision_table(ctx, lt, plain=True)
                             ok = any(r['out'].startswith('ok') and any(c.startswith('Eq(len(') and c.endswith('=T') for c in r['conds']) for r in rows)
                 seen[key] = seen.get(key, True) and ok
                 if not ok:
